@@ -167,6 +167,9 @@ def main(tier, seed):
             if r < 0.05:
                 progs.append((labels_before_input(rng), rng.choice(["xAAB", "xA", "AAAAC\n", "", "B"])))
                 continue
+            if r < 0.07:
+                progs.append((two_labels_one_command(rng), rng.choice(["x\n", "ab", "\n"])))
+                continue
             if r < 0.2:
                 # pre-executable prefix that leaves state behind, then code that needs input
                 p = rng.choice([idiom_fraction, idiom_multi, idiom_stacks, idiom_label_return, idiom_loop, idiom_print])(rng)
